@@ -1,19 +1,27 @@
 /- `LinkageState` (src/lib.rs): scratch space shared by all algorithms. -/
-import Kodama.Model.Active
-import Kodama.Model.Heap
-import Kodama.Model.UnionFind
-import Kodama.Model.Mat
+import Kodama.Model.Containers
 import Kodama.Generated.Method
+import Kodama.Generated.Reset
+import Kodama.Model.Relabel
 namespace Kodama
 
-structure State (α : Type) where
-  sizes : Array Nat
-  active : Active
-  minDists : Array α
-  set : UF
-  chain : Array Nat
-  queue : Heap α
-  nearest : Array Nat
+/-- `Dendrogram::reset(observations)` — the body translated from src/dendrogram.rs. -/
+def Dendrogram.reset {α : Type} [Num α] (d : Dendrogram α) (n : Nat) : Dendrogram α :=
+  Gen.dendrogramReset d n
+
+namespace Heap
+variable {α : Type} [Num α]
+
+/-- `heapify(f)` where the closure's effect on `priorities` is given as the new array.
+(`len = self.priorities.len(); self.reset(len); f(&mut self.priorities); sift…`) -/
+def heapifyWith (chk : Bool) (h : Heap α) (newPrio : Array α → R (Array α)) : R (Heap α) := do
+  let len := h.prio.size
+  let h : Heap α := Gen.heapReset h len
+  let prio ← newPrio h.prio
+  let h := { h with prio := prio }
+  heapifyLoop chk h (List.range (len / 2)).reverse
+
+end Heap
 
 namespace State
 variable {α : Type} [Num α]
@@ -27,9 +35,9 @@ def fresh (n : Nat) : State α :=
   ⟨Array.replicate n 1, Active.fresh n, Array.replicate n Num.infinity, UF.fresh n,
    Array.replicate n 0, Heap.fresh n, Array.replicate n 0⟩
 
-/-- `reset(size)`.  (Replaced by the translated body in `Generated/Reset.lean`; see
-`State.reset_eq_fresh`.) -/
-def reset (_st : State α) (n : Nat) : State α := fresh n
+/-- `reset(size)` — the body translated from src/lib.rs (and the container resets it calls).
+`Lemmas/Reset.lean` proves `reset st n = fresh n` for every `st`. -/
+def reset (st : State α) (n : Nat) : State α := Gen.stateReset st n
 
 /-- `merge(dend, c1, c2, d)`. -/
 def merge (chk : Bool) (st : State α) (dend : Dendrogram α) (c1 c2 : Nat) (d : α) :
